@@ -6,6 +6,7 @@ package websocket
 
 import (
 	"bytes"
+	"compress/flate"
 	"errors"
 	"fmt"
 	"io"
@@ -25,6 +26,8 @@ type c30Op struct {
 	Data   []byte     `json:"d,omitempty"`
 	Chunks []c30Chunk `json:"cs,omitempty"`
 	PKeys  [][]byte   `json:"pkeys,omitempty"`
+	Z      [][]byte   `json:"-"` // chunks the flate.Writer hands to its destination (compressed data messages)
+	ZN     int        `json:"zchunks,omitempty"`
 	Err    int        `json:"err"`
 	ErrStr string     `json:"errs,omitempty"`
 }
@@ -230,7 +233,52 @@ func c30Exec(c *Conn, op *c30Op) {
 	}
 }
 
+type c30Rec struct{ chunks *[][]byte }
+
+func (r c30Rec) Write(p []byte) (int, error) {
+	*r.chunks = append(*r.chunks, append([]byte{}, p...))
+	return len(p), nil
+}
+
+// c30Deflate replays the application's writes on a fresh flate.Writer (deterministic) and returns
+// the chunks it wrote to its destination during the writes and the final Flush.
+func c30Deflate(level int, writes [][]byte) [][]byte {
+	var chunks [][]byte
+	fw, _ := flate.NewWriter(c30Rec{&chunks}, level)
+	for _, p := range writes {
+		fw.Write(p)
+	}
+	fw.Flush()
+	return chunks
+}
+
+func c30OpData(op c30Op) (data []byte, writes [][]byte) {
+	if op.Kind == "stream" {
+		for _, ch := range op.Chunks {
+			data = append(data, ch.Data...)
+			writes = append(writes, ch.Data)
+		}
+		return data, writes
+	}
+	return op.Data, [][]byte{op.Data}
+}
+
 func c30OpCoq(op c30Op) string {
+	if op.Z != nil {
+		zs := make([]string, len(op.Z))
+		for i, z := range op.Z {
+			zs[i] = vBytes(z)
+		}
+		data, _ := c30OpData(op)
+		if op.Kind == "prepared" {
+			ks := make([]string, len(op.PKeys))
+			for i, k := range op.PKeys {
+				ks[i] = vBytes(k)
+			}
+			return vApp("OpPreparedZ", vN(uint64(op.Typ)), c29Term(data), vList(zs), vList(ks))
+		}
+		return vApp("OpZ", vN(uint64(op.Typ)), c29Term(data), vList(zs))
+	}
 	switch op.Kind {
 	case "message":
 		return vApp("OpMessage", vN(uint64(op.Typ)), c29Term(op.Data))
@@ -286,15 +334,44 @@ func TestVerifC30(t *testing.T) {
 		var wbs int
 		var ops []c30Op
 		class := "random"
+		compress := false
+		level := 1
 		if i < len(corpus) {
 			server, wbs, ops, class = corpus[i].server, corpus[i].wbs, corpus[i].ops, "corpus:"+corpus[i].name
 		} else {
 			server = r.Intn(2) == 0
 			wbs = wbsPool[r.Intn(len(wbsPool))]
 			ops = c30GenOps(r, server, wbs)
+			if r.Intn(4) == 0 {
+				// permessage-deflate negotiated and write compression on (extension of the model)
+				compress = true
+				level = []int{-2, 1, 6, 9}[r.Intn(4)]
+				class = "compressed"
+				for k := range ops {
+					for j := range ops[k].Chunks {
+						if ops[k].Chunks[j].Kind == "readfrom" { // flateWriteWrapper is no io.ReaderFrom
+							ops[k].Chunks[j].Kind = "write"
+						}
+					}
+				}
+			}
 		}
 		pc := &c29Conn{}
 		c := newConn(pc, server, 0, wbs, nil, nil, nil)
+		if compress {
+			c.newCompressionWriter = compressNoContextTakeover
+			c.newDecompressionReader = decompressNoContextTakeover
+			_ = c.SetCompressionLevel(level)
+			for k := range ops {
+				if ops[k].Typ == 1 || ops[k].Typ == 2 {
+					if ops[k].Kind == "message" || ops[k].Kind == "stream" || ops[k].Kind == "prepared" {
+						_, writes := c30OpData(ops[k])
+						ops[k].Z = c30Deflate(level, writes)
+						ops[k].ZN = len(ops[k].Z)
+					}
+				}
+			}
+		}
 		start := make([]int, len(ops))
 		for k := range ops {
 			start[k] = pc.out.Len()
@@ -320,7 +397,14 @@ func TestVerifC30(t *testing.T) {
 			}
 		}
 		_, wellFormed := c30Keys(wire)
-		read, wok := c29Run(c29Cfg{Server: !server, RBuf: 4096}, wire)
+		peerCfg := c29Cfg{Server: !server, Compress: compress, RBuf: 4096}
+		read, wok := c29Run(peerCfg, wire)
+		var tbl []c29Infl
+		c29Walk(peerCfg, true, wire, &tbl)
+		tb := make([]string, len(tbl))
+		for k, e := range tbl {
+			tb[k] = vPair(vBytes(e.In), vOpt(c29Term(e.Out), e.OK))
+		}
 
 		kt := make([]string, len(keys))
 		for k, key := range keys {
@@ -350,12 +434,12 @@ func TestVerifC30(t *testing.T) {
 			rt = append(rt, "(Err EPanic)")
 			class += "/malformed"
 		}
-		term := vApp("mkCase", vApp("mkWcfg", vBool(server), vN(uint64(wbs+maxFrameHeaderSize))), vList(kt), vList(ot), c29Term(wire), vList(et), vList(rt))
+		term := vApp("mkCase", vApp("mkWcfg", vBool(server), vN(uint64(wbs+maxFrameHeaderSize)), vBool(compress)), vList(kt), vList(tb), vList(ot), c29Term(wire), vList(et), vList(rt))
 		role := "client"
 		if server {
 			role = "server"
 		}
-		js := map[string]any{"server": server, "write_buffer": wbs, "ops": ops, "wire_len": len(wire), "wire": c29Hex(wire), "read": read, "fkey": "roundtrip"}
+		js := map[string]any{"server": server, "write_buffer": wbs, "compress": compress, "level": level, "ops": ops, "wire_len": len(wire), "wire": c29Hex(wire), "read": read, "fkey": "roundtrip"}
 		w.Case(i, term, js, fmt.Sprintf("%s/%s/buf%d", class, role, wbs), nmsg >= 2 || len(wire) > 200)
 	}
 }
